@@ -164,12 +164,12 @@ func debugDump(repo, spec string) {
 	out := in.Run(fn, dargs, nil)
 	fmt.Println("canReturn", out.CanReturn, "canPanic", out.CanPanic, "ret", out.Ret)
 	var keys []string
-	for k := range in.heap {
+	for k := range in.FinalHeap() {
 		keys = append(keys, k)
 	}
 	sort.Strings(keys)
 	for _, k := range keys {
-		fmt.Printf("  %s = %s\n", k, in.heap[k])
+		fmt.Printf("  %s = %s\n", k, in.FinalHeap()[k])
 	}
 	fmt.Println("stuck", in.Stuck)
 }
